@@ -103,14 +103,14 @@ def case_rod(kind, n_elems, taper, bent, rot_idx, density, seed, finalize=False)
     return CaseResult(fails=fails, states=states, transitions=states, traces=states, outcome=f"{kind}:{n_elems}:{taper}:{bent}:{n}", extra={"markers": n, "worst_moment_residual": worst})
 
 
-def case_rigid(kind, rot_idx, origin_idx, vel_idx):
+def case_rigid(kind, rot_idx, origin_idx, vel_idx, n_points=None):
     planar = kind == "cylinder2d"
     rots = bodies.rotations_2d() if planar else bodies.rotations_3d()
     rot = rots[rot_idx % len(rots)]
     origin = [np.array([0.5, 0.5, 0.5]), np.array([1.0, 2.0, 3.0])][origin_idx]
     if planar:
         origin = origin * np.array([1, 1, 0])
-    body, grid = bodies.make_rigid(kind, rot, origin)
+    body, grid = bodies.make_rigid(kind, rot, origin, n_points=n_points)
     d = grid.grid_dim
     n = grid.num_lag_nodes
     fails = []
@@ -326,6 +326,10 @@ def run(r) -> None:
             for oi in (0, 1):
                 for vi in (range(6) if (not quick or ri in (0, nrot - 1)) else (0, 5)):
                     rigid_cases.append(dict(kind=kind, rot_idx=ri, origin_idx=oi, vel_idx=vi))
+    for kind, counts in bodies.RIGID_COUNTS.items():
+        nrot = len(bodies.rotations_2d() if kind == "cylinder2d" else bodies.rotations_3d())
+        for n in counts:
+            rigid_cases.append(dict(kind=kind, rot_idx=nrot - 1, origin_idx=1, vel_idx=5, n_points=n))
     r.run_cases("rigid-grids", "rigid", rigid_cases, chunksize=8)
     inter = [dict(kind=k, dtype=dt, seed=r.seed) for k in ("cylinder2d", "edge", "element2", "sphere", "cylinder3d", "plane", "surface-cap", "element3") for dt in ("float64", "float32")]
     inter += [dict(kind=k, dtype="float64", seed=r.seed, dx_idx=1) for k in ("cylinder2d", "edge", "sphere", "element3")]  # non-dyadic spacing
